@@ -264,15 +264,21 @@ class C15A(EngineBase):
 
     # ------------------------------------------------------------- execute
     @staticmethod
-    def _run_one(heap, step):
+    def _run_one(heap, step, fresh_operands=False):
         op = step["op"]
         if any(n not in heap for n in step.get("in", [])):
             return ("skip",)
         if op == "del":
             ops.bind(step, heap, None)
             return ("del",)
+        src = heap
+        if fresh_operands and step.get("in"):
+            src = {}
+            for n in step["in"]:
+                if n not in src:
+                    src[n] = S.clone(heap[n])
         try:
-            res = ops.run_step(step, heap)
+            res = ops.run_step(step, src)
         except HarnessError:
             raise
         except Exception as e:  # noqa: BLE001
@@ -286,9 +292,12 @@ class C15A(EngineBase):
             st.ref.append(None)
             return
         # cold reference: every cache, memo and module-level container of the
-        # library is put back to its import-time content before each step
+        # library is put back to its import-time content before each step, and
+        # the operands are rebuilt through public constructors (fresh index
+        # objects: no per-object memo or lazily created attribute survives),
+        # so the reference value is a function of the arguments' values only
         core.world_reset(0, 512)
-        out = self._run_one(st.heap, step)
+        out = self._run_one(st.heap, step, fresh_operands=True)
         st.ref.append(out)
         if out[0] == "ok":
             st.stats["step.ok"] += 1
@@ -670,6 +679,9 @@ class C15C(EngineBase):
             "p_b": r.choice([0.02, 0.1]),
             "p_cold": r.choice([0.0005, 0.002]) if kind == "biased" else r.choice([0.002, 0.02]),
             "pct_d": r.choice([1, 2, 3]),
+            # fraction of the attribute-storing (tier B) functions that are
+            # also pre-emptible between bytecodes in this run
+            "instr_b": r.choice([0.0, 0.0, 0.25, 0.5, 1.0]),
             "sched_seed": r.randrange(2**31),
             "kinds": r.choice([["A", "F"], ["F"], ["A"]]),
             "syms": r.choice([["Z2"], ["U1"], ["Z2Z2"], ["U1U1"], ["Z2", "U1"]]),
@@ -828,7 +840,15 @@ class C15C(EngineBase):
         results = {tid: [] for tid in tids}
         fns = [self._make_fn(st.tsteps[tid], _collections.ChainMap({}, shared), results[tid])
                for tid in tids]
-        baton = T.Baton(fns, policy, _tiers(), instruction_level=instruction_level)
+        extra = []
+        fb = cfg.get("instr_b", 0.0)
+        if fb:
+            tb = sorted((c for c, t in _tiers().items() if t == "B"),
+                        key=lambda c: (c.co_filename, c.co_firstlineno, c.co_name))
+            pick = random.Random(cfg["sched_seed"] ^ 0x5EED)
+            extra = [c for c in tb if pick.random() < fb]
+        baton = T.Baton(fns, policy, _tiers(), instruction_level=instruction_level,
+                        extra_instruction_codes=extra)
         baton.run()
         return baton, shared, before, {tid: results[tid] for tid in tids}
 
